@@ -498,10 +498,14 @@ func main() {
 			}
 		}
 		out.ReachAll[class] = len(reach)
+		var fns []*ssa.Function
 		for fn := range reach {
-			if !inModule(fnPkg(fn)) || fn.Blocks == nil {
-				continue
+			if inModule(fnPkg(fn)) && fn.Blocks != nil {
+				fns = append(fns, fn)
 			}
+		}
+		sort.Slice(fns, func(i, j int) bool { return fns[i].String() < fns[j].String() })
+		for _, fn := range fns {
 			out.Reach[class]++
 			name := fnName(fn)
 			if strings.HasSuffix(name, ".init") || strings.Contains(name, ".init#") {
@@ -510,6 +514,10 @@ func main() {
 			}
 			a.scan(fn, func(kind, lname string, p token.Pos) {
 				key := class + "|" + name + "|" + kind + "|" + lname
+				if class == "load" && strings.HasPrefix(kind, "meta") {
+					// a load may write the meta objects it builds: one record per location is enough
+					key = class + "|" + kind + "|" + lname
+				}
 				if seenRec[key] {
 					return
 				}
